@@ -882,6 +882,14 @@ func RowCount() *rapid.Generator[int] {
 	return rapid.OneOf(rapid.IntRange(0, 4), rapid.IntRange(0, 4), rapid.IntRange(0, 30), rapid.Just(0), rapid.Just(1))
 }
 
+// RowCountWide is RowCount plus, one draw in ten, a count on or next to a
+// power-of-two boundary (chunked or batched decoders tend to break there).
+func RowCountWide() *rapid.Generator[int] {
+	boundary := rapid.SampledFrom([]int{31, 32, 33, 63, 64, 65, 127, 128, 129, 192, 255, 256, 257, 512, 1023, 1024, 1025})
+	return rapid.OneOf(rapid.IntRange(0, 4), rapid.IntRange(0, 4), rapid.IntRange(0, 4), rapid.IntRange(0, 30), rapid.IntRange(0, 30),
+		rapid.Just(0), rapid.Just(0), rapid.Just(1), rapid.Just(1), boundary)
+}
+
 // Key identifies a kind across processes (for replay files).
 func (k *Kind) Key() string {
 	if k.key != "" {
